@@ -43,6 +43,7 @@ const maxTsC = 2147483647
 // unistore mode: timestamps come from unistore's own PD (wall clock), because the store takes the minimum commit
 // timestamp of async-commit / 1PC transactions from it; tsBase shifts them into the compact range
 var tsBase int64
+
 const rpcBudget = 6000
 
 // compact exact image of a TSO timestamp: physical*1000 + logical (logical < 1000 is enforced by the virtual PD)
@@ -82,6 +83,7 @@ func keyOf(i int) []byte {
 	}
 	return []byte(keyTable[i])
 }
+
 // keyspace mode (C15): the clients are bound to keyspace ksID, the store and the cluster work on physical keys
 var ksID uint32
 
@@ -548,6 +550,11 @@ func (g *Gate) SendRequest(ctx context.Context, addr string, req *tikvrpc.Reques
 		return g.Client.SendRequest(ctx, addr, req, timeout)
 	}
 	w := g.w
+	if req.Type == tikvrpc.CmdCheckSecondaryLocks {
+		// a resolver asks every region of an async-commit transaction at once and digests the answers as they come:
+		// vary the order in which its requests reach the gate
+		time.Sleep(time.Duration(rand.Intn(1500)) * time.Microsecond)
+	}
 	w.schedMu.Lock()
 	idx := int(g.n)
 	g.n++
@@ -587,6 +594,18 @@ func (g *Gate) SendRequest(ctx context.Context, addr string, req *tikvrpc.Reques
 	}
 	if act.pre != nil {
 		act.pre()
+	}
+	if act.kind == "fallback" && req.Type == tikvrpc.CmdPrewrite {
+		// the store cannot commit at or below this ceiling: it gives up async commit / 1PC for this request and writes an
+		// ordinary lock (what TiKV does when the commit ts would exceed the schema-lease bound the client sent)
+		// (only for a request that locks something: TiKV computes no commit-ts ceiling for a batch of non-locking existence
+		// checks and so never falls back on one, unistore would)
+		for _, m := range req.Prewrite().Mutations {
+			if m.Op != kvrpcpb.Op_CheckNotExists {
+				req.Prewrite().MaxCommitTs = req.Prewrite().StartVersion + 1
+				break
+			}
+		}
 	}
 	switch act.kind {
 	case "crash_before":
